@@ -36,6 +36,10 @@ type LeafCfg struct {
 	PostS  string `json:"postS"`
 	// harness-only hints (ignored by the Lean side)
 	Impl  string `json:"impl,omitempty"`  // for direct nodes with fb=custom & retryable: "base" | "plain"
+	// Of (harness only, with Impl "inner"): this node IS the *CustomNode wrapped by the NodeBuilder that is node `Of` — a Node in
+	// its own right (an exported field), a different node from the builder as far as a flow's table goes. Generated only where it
+	// is connected but never reached.
+	Of int `json:"of,omitempty"`
 	Build string `json:"build,omitempty"` // for function-style nodes: "option" | "builder" | "mixed"
 }
 
@@ -697,6 +701,9 @@ func (e *runtimeEnv) buildLeaf(id int, cfg *LeafCfg) flyt.Node {
 	rt := &nodeRT{env: e, id: id, visit: -1}
 	e.rts[id] = rt
 	l := &leafImpl{rt0: rt, cfg: cfg}
+	if cfg.Impl == "inner" {
+		return e.nodes[cfg.Of].(*flyt.NodeBuilder).CustomNode
+	}
 	wait := waitDur(cfg.Wait, cfg.WaitUs)
 	isFunc := cfg.PrepS == "res" || cfg.PrepS == "any" || cfg.ExecS == "res" || cfg.ExecS == "any" ||
 		cfg.PostS == "res" || cfg.PostS == "any"
